@@ -3,6 +3,9 @@
 set -u
 DIR="$1"; shift
 cd /verif
+# runs on a patched tree must not overwrite the evidence of the unchanged tree
+export VERIF_EVIDENCE_DIR=/verif/scratch/evidence_seeded
+mkdir -p $VERIF_EVIDENCE_DIR
 if [ -n "$(git -C /repo status --porcelain)" ]; then echo "/repo not clean"; exit 3; fi
 git -C /repo apply "$(realpath "$DIR")/patch.diff" || { echo "patch does not apply"; exit 3; }
 for p in "$@"; do
